@@ -473,6 +473,10 @@ def run(repo, rep, tier):
     from . import c09 as _c09
     L.borrow(repo, rep, "R13.3", "C09", _c09.element_details,
              ("use-macro-omits-tag",))
+    # error.lineno / error.offset of a deferred (non-strict) expression error
+    # are those of the expression: its statements set the token (C19)
+    from . import c19 as _c19
+    L.borrow(repo, rep, "R13.1", "C19", _c19._deferred, ("deferred-shape",))
     L.state_rule(repo, rep)
 
 
